@@ -5,6 +5,7 @@ import os
 import sys
 
 sys.path.insert(0, os.path.dirname(os.path.abspath(__file__)))
+sys.path.insert(0, os.path.join(os.environ.get("PYAB_REPO", "/repo"), "src"))     # the tree under test, before any import of the package
 order = os.environ.get("C01_IMPORT_ORDER", "a")
 if order == "b":
     import pyab_experiment.binning.binning  # noqa
